@@ -38,6 +38,8 @@ def probe_bin():
 
 
 def mos_bin():
+    if os.environ.get("VERIF_MOS_BIN"):       # (sanitizer slices run the same workloads against an instrumented build)
+        return os.environ["VERIF_MOS_BIN"]
     return os.path.join(BUILD, "mos-" + repo_tag(), "release", "mos")
 
 
